@@ -84,14 +84,15 @@ class BaseManager:
         return self.rooms[namespace][None].get(sid)
 
     def basic_disconnect(self, sid, namespace, **kwargs):
-        if namespace not in self.rooms:
-            return
-        rooms = []
-        for room_name, room in self.rooms[namespace].copy().items():
-            if sid in room:
-                rooms.append(room_name)
-        for room in rooms:
-            self.basic_leave_room(sid, namespace, room)
+        if namespace in self.rooms:
+            rooms = []
+            for room_name, room in self.rooms[namespace].copy().items():
+                if sid in room:
+                    rooms.append(room_name)
+            for room in rooms:
+                self.basic_leave_room(sid, namespace, room)
+        # the callbacks and the to-be-disconnected mark of the client are
+        # released even if its namespace is already gone
         if sid in self.callbacks:
             del self.callbacks[sid]
         if namespace in self.pending_disconnect and \
